@@ -254,6 +254,49 @@ pub fn run(ctx: &Ctx) -> i32 {
         check_plumbing(&format!("tall#{}", k), "tall", &t, acc);
     });
 
+    // ---- many findings in one file (more than 512, more than 4096) behind multi-byte characters
+    let nmany = ctx.tier.pick(4u64, 16u64);
+    run_workload(ctx, &mut acc, "many-findings", nmany, |k, rng, acc| {
+        let n = [600usize, 1500, 5000, 700][(k % 4) as usize];
+        let nl = if k % 3 == 2 { "\r\n" } else { "\n" };
+        let mut t = format!("pragma solidity ^0.8.0;{nl}// 合约 é 合约合约合约 😀😀 préambule{nl}contract Many {{{nl}    uint256 x;{nl}    uint256[] arr;{nl}    function f(uint256 a, uint256 b) public {{{nl}", nl = nl);
+        for i in 0..n {
+            match (i + rng.below(3)) % 4 {
+                0 => t.push_str(&format!("        x++; /* é {} */{}", i, nl)),
+                1 => t.push_str(&format!("        arr[0] = arr[0] + {}; // 合约{}", i % 7, nl)),
+                2 => t.push_str(&format!("        require(a >= b && b != {}, \"é\");{}", i, nl)),
+                _ => t.push_str(&format!("        x = a / {} * 2;{}", (i % 5) + 2, nl)),
+            }
+        }
+        t.push_str(&format!("    }}{nl}}}{nl}", nl = nl));
+        acc.cov(&format!("many-findings:{}-statements", n));
+        check_plumbing(&format!("many#{}", k), "many-findings", &t, acc);
+    });
+
+    // ---- a byte order mark in front of a file: whether or not the analysis accepts such a file, the mark holds no line
+    // feed, so lines reported for it are the lines reported without it
+    let bom_progs: Vec<&corpus::Prog> = progs.iter().take(40).collect();
+    run_workload(ctx, &mut acc, "byte-order-mark", bom_progs.len() as u64, |k, _rng, acc| {
+        let p = bom_progs[k as usize];
+        let with_bom = format!("{}{}", '\u{FEFF}', p.text);
+        for (dname, det) in dets::ALL.iter() {
+            let plain = match guarded(|| det.lines(&p.text, 0)) {
+                Ok(l) => l,
+                Err(_) => continue,
+            };
+            match guarded(|| det.lines(&with_bom, 0)) {
+                Ok(l) => {
+                    acc.eval();
+                    acc.cov("byte-order-mark:file-accepted");
+                    if l != plain {
+                        acc.violation(format!("byte-order-mark:{}", dname), json!({"program": p.name, "detector": dname, "lines_without_the_mark": plain, "lines_with_the_mark": l}));
+                    }
+                }
+                Err(_) => acc.cov("byte-order-mark:file-rejected-by-the-parser"),
+            }
+        }
+    });
+
     // ---- monitor 3: which construct.  In the one-token-per-line layout a line names a token; every MUST construct of the
     // spec tables (DESIGN.md section 8) must be reported on the line of (one of) its designated first token(s).
     let nw = ctx.tier.pick(400u64, 6000u64);
